@@ -238,6 +238,45 @@ def run(chk):
                               dict(xs=xs.tolist(), np=npart, R=R, coord=coord, dtype='float64', wdtype='float64', weights=True, sort=bool(rep), nthread=t, dyadic=True))
     chk.add_cases(nbig, traces=nbig)
     chk.part('many_stripes', runs=nbig)
+    # ---- float64 positions a relative 1e-9 on either side of every interior stripe boundary, for stripe widths that are not exact in
+    #      single precision: the stripe key must be computed in the precision of the positions (judged with exact rational arithmetic)
+    from fractions import Fraction
+    nnear = 0
+    for (npart, box) in ((4, 10.0), (1000, 123.0), (7, 7.0), (3, 1.0), (12, 100.0)):
+        bnd = np.array([s_ * box / npart for s_ in range(1, npart)], dtype=np.float64)
+        if len(bnd) > 150:
+            bnd = bnd[rng.choice(len(bnd), 150, replace=False)]
+        xs = np.concatenate([bnd * (1 - 1e-9), bnd * (1 + 1e-9), rng.uniform(0, box, 50)])
+        xs = xs[(xs >= 0) & (xs < box)]
+        n = len(xs)
+        for coord in (0, 2):
+            pos = np.empty((n, 3), dtype=np.float64)
+            for j in range(3):
+                pos[:, j] = (np.arange(n) * 3 + j + 1) * 0.25
+            pos[:, coord] = xs
+            w = (np.arange(n) + 1).astype(np.float64)
+            t = 1 + (npart + coord) % 5
+            res, bad = call(partition_parallel, pos, w, npart, box, coord, t, False)
+            nnear += 1
+            if not bad:
+                psort, starts, wsort = res
+                starts = np.asarray(starts)
+                other = [j for j in range(3) if j != coord][0]
+                tag = np.rint((psort[:, other] / 0.25 - (other + 1)) / 3).astype(np.int64)
+                if starts.shape != (npart + 1,) or starts[0] != 0 or starts[-1] != n or np.any(np.diff(starts) < 0) or sorted(tag.tolist()) != list(range(n)) or not np.array_equal(psort, pos[tag]):
+                    bad = 'starts / permutation structure broken'
+                else:
+                    stripe_of_row = np.searchsorted(starts, np.arange(n), side='right') - 1
+                    fb = Fraction(box)
+                    want = np.array([min(int(Fraction(float(x_)) * npart / fb), npart - 1) for x_ in psort[:, coord]], dtype=np.int64)
+                    if not np.array_equal(stripe_of_row, want):
+                        i = int(np.argmax(stripe_of_row != want))
+                        bad = f'stripe membership: x={float(psort[i, coord])!r} belongs to stripe {int(want[i])} (x*npartition/BoxSize = {float(Fraction(float(psort[i, coord])) * npart / fb)!r}) but was put in stripe {int(stripe_of_row[i])}'
+            if bad:
+                chk.violation(key_of(bad, n, t) + '-near-boundary-f8', f'float64 positions next to stripe boundaries, npartition={npart} BoxSize={box} coord={coord} nthread={t}: {bad}',
+                              dict(kind='near-boundary', np=npart, box=box, coord=coord, nthread=t))
+    chk.add_cases(nnear, traces=nnear)
+    chk.part('near_boundary_f8', runs=nnear)
     # ---- schedule replay on the real source
     import sched
     share = ['keys', 'counts', 'pointers', 'psort', 'wsort', 'starts']
@@ -287,6 +326,9 @@ def replay(chk, path):
     from abacusnbody.analysis.tsc import partition_parallel
     d = json.load(open(path))
     p = d['payload']
+    if 'xs' not in p:                       # schedule / near-boundary / crash replays: re-run the check
+        print(d.get('what', ''))
+        return run(chk)
     dt = np.dtype(p.get('dtype', 'float64')).type
     pos, w, box = make_input(p['xs'], p['np'], p['R'], p.get('coord', 0), dt, cell=0.5 if p.get('dyadic', True) else 1.0 / 3, wdtype=(np.dtype(p['wdtype']).type if p.get('wdtype') else None))
     res, bad = call(partition_parallel, pos, w if p['weights'] else None, p['np'], box, p.get('coord', 0), p['nthread'], p.get('sort', False))
